@@ -11,8 +11,9 @@ out = r.stdout[r.stdout.index("{"):]
 ev = json.loads(out)
 dst = os.path.join(V, "seeded", name)
 os.makedirs(dst, exist_ok=True)
-for f in ("patch.diff", "demo.py"):
-    shutil.copy(os.path.join(src, f), os.path.join(dst, f))
+for f in sorted(os.listdir(src)):  # patch.diff, demo.py and whatever helper modules the demo imports
+    if f != "meta.json" and os.path.isfile(os.path.join(src, f)) and not f.endswith(".pyc"):
+        shutil.copy(os.path.join(src, f), os.path.join(dst, f))
 meta = json.load(open(os.path.join(src, "meta.json")))
 meta["evaluation"] = {
     "ran": ["patch applied to a scratch copy of /repo (HEAD %s)" % subprocess.run(["git", "-C", "/repo", "log", "--format=%h", "-1"], capture_output=True, text=True).stdout.strip(),
